@@ -12,47 +12,47 @@ From OIDC Require Import Lib C05_Model C05_spec C05_proofs.
    outside the recorded gap: a 2xx answer implies provider flag / storage capability on,
    grant registered, and the credential of the registered method (jwt-bearer: the grant
    assertion is signed by a key registered for its issuer). *)
-Theorem C05_token_partial : forall r c rg p g pl,
+Theorem C05_token_partial : forall r c rg p g pl pv,
   (r = RProvider /\ g = GDevice /\ registered rg GDevice = false -> False) ->
   names_other p = false ->
-  success (model (mkInput r EToken c rg p g pl)) = true ->
+  success (model (mkInput r EToken c rg p g pl pv)) = true ->
   token_justified c rg p g = true.
 Proof. exact token_partial. Qed.
 Print Assumptions C05_token_partial.
 
 (* The same without the guard is what the property asks; the code does not meet it
    (finding Fxx-C05-4: Provider router, device_code grant, grant not registered). *)
-Theorem C05_token_refuted : ~ (forall r c rg p g pl,
+Theorem C05_token_refuted : ~ (forall r c rg p g pl pv,
   names_other p = false ->
-  success (model (mkInput r EToken c rg p g pl)) = true -> token_justified c rg p g = true).
+  success (model (mkInput r EToken c rg p g pl pv)) = true -> token_justified c rg p g = true).
 Proof. exact token_refuted. Qed.
 Print Assumptions C05_token_refuted.
 
 (* Inside the gap everything except the grant registration is still enforced. *)
-Theorem C05_token_gap : forall c rg p pl,
+Theorem C05_token_gap : forall c rg p pl pv,
   registered rg GDevice = false -> names_other p = false ->
-  success (model (mkInput RProvider EToken c rg p GDevice pl)) = true ->
+  success (model (mkInput RProvider EToken c rg p GDevice pl pv)) = true ->
   c_dev c = true /\ cred_valid c rg p true = true.
 Proof. exact token_gap. Qed.
 Print Assumptions C05_token_gap.
 
-Theorem C05_introspect : forall r c rg p g pl,
+Theorem C05_introspect : forall r c rg p g pl pv,
   names_other p = false ->
-  success (model (mkInput r EIntrospect c rg p g pl)) = true -> authenticated rg p = true.
+  success (model (mkInput r EIntrospect c rg p g pl pv)) = true -> authenticated rg p = true.
 Proof. exact introspect_statement. Qed.
 Print Assumptions C05_introspect.
 
-Theorem C05_revoke : forall r c rg p g pl,
+Theorem C05_revoke : forall r c rg p g pl pv,
   names_other p = false ->
-  success (model (mkInput r ERevoke c rg p g pl)) = true ->
+  success (model (mkInput r ERevoke c rg p g pl pv)) = true ->
   authenticated rg p = true \/ (r_known rg = true /\ r_meth rg = MNone /\ identifies p = true).
 Proof. exact revoke_statement. Qed.
 Print Assumptions C05_revoke.
 
 (* [names_other p]: the request names the second client Y (see C05_acts_for_self) *)
-Theorem C05_device_authz : forall r c rg p g pl,
+Theorem C05_device_authz : forall r c rg p g pl pv,
   names_other p = false ->
-  success (model (mkInput r EDeviceAuthz c rg p g pl)) = true ->
+  success (model (mkInput r EDeviceAuthz c rg p g pl pv)) = true ->
   r_known rg = true /\ identifies p = true /\ registered rg GDevice = true.
 Proof. exact device_authz_statement. Qed.
 Print Assumptions C05_device_authz.
@@ -100,27 +100,52 @@ Theorem C05_spec_model_refuted : exists i, spec i (model i) = false.
 Proof. exact spec_model_refuted. Qed.
 Print Assumptions C05_spec_model_refuted.
 
+(* Sequences of requests on one provider instance: no guard keeps state, the answer to a request
+   does not depend on what was served before it ([pv]: a fully credentialed request of a third
+   client, by assertion / Basic / post). *)
+Theorem C05_history_independent : forall r e c rg p g pl pv pv',
+  model (mkInput r e c rg p g pl pv) = model (mkInput r e c rg p g pl pv').
+Proof. exact history_independent. Qed.
+Print Assumptions C05_history_independent.
+
+(* Partial credentials. The storage contract lets the empty secret match a client that has no
+   secret stored (auth method none / private_key_jwt) ... *)
+Theorem C05_storage_accepts_empty_secret : forall rg,
+  r_known rg = true -> has_secret (r_meth rg) = false -> storage_secret_ok rg SEmpty = true.
+Proof. exact storage_accepts_empty_secret. Qed.
+Print Assumptions C05_storage_accepts_empty_secret.
+
+(* ... and yet a hollow credential (client_id only, Basic with an empty password, an empty
+   client_secret, a client_assertion_type without client_assertion) obtains neither token
+   metadata nor tokens on the grants that require authentication, for any client. *)
+Theorem C05_hollow_credential_refused : forall r e c rg p g pl pv,
+  hollow p = true ->
+  e = EIntrospect \/ (e = EToken /\ (g = GTE \/ g = GCC)) ->
+  success (model (mkInput r e c rg p g pl pv)) = false.
+Proof. exact hollow_credential_refused. Qed.
+Print Assumptions C05_hollow_credential_refused.
+
 (* The refusals the property text names. *)
-Theorem C05_unknown_client_refused : forall r e c rg p g pl,
-  r_known rg = false -> names_other p = false -> success (model (mkInput r e c rg p g pl)) = false.
+Theorem C05_unknown_client_refused : forall r e c rg p g pl pv,
+  r_known rg = false -> names_other p = false -> success (model (mkInput r e c rg p g pl pv)) = false.
 Proof. exact unknown_client_refused. Qed.
 Print Assumptions C05_unknown_client_refused.
 
-Theorem C05_wrong_secret_refused : forall r e c rg p g pl,
+Theorem C05_wrong_secret_refused : forall r e c rg p g pl pv,
   has_secret (r_meth rg) = true -> presents_right_secret p = false -> presents_ok_assertion p = false ->
   e <> EDeviceAuthz -> g <> GBearer ->
-  success (model (mkInput r e c rg p g pl)) = false.
+  success (model (mkInput r e c rg p g pl pv)) = false.
 Proof. exact wrong_secret_refused. Qed.
 Print Assumptions C05_wrong_secret_refused.
 
-Theorem C05_unregistered_grant_refused : forall r c rg p g pl,
+Theorem C05_unregistered_grant_refused : forall r c rg p g pl pv,
   registered rg g = false -> g <> GBearer -> (r = RProvider /\ g = GDevice -> False) ->
   names_other p = false ->
-  success (model (mkInput r EToken c rg p g pl)) = false.
+  success (model (mkInput r EToken c rg p g pl pv)) = false.
 Proof. exact unregistered_grant_refused. Qed.
 Print Assumptions C05_unregistered_grant_refused.
 
-Theorem C05_disabled_grant_refused : forall r c rg p g pl,
-  capability c g = false -> names_other p = false -> success (model (mkInput r EToken c rg p g pl)) = false.
+Theorem C05_disabled_grant_refused : forall r c rg p g pl pv,
+  capability c g = false -> names_other p = false -> success (model (mkInput r EToken c rg p g pl pv)) = false.
 Proof. exact disabled_grant_refused. Qed.
 Print Assumptions C05_disabled_grant_refused.
